@@ -308,8 +308,7 @@ def _run_named(item):
             r = co.run_case(dict(case, flavour="restart"))
     except (e3.E3Error, OSError) as exc:
         return {"error": f"{type(exc).__name__}: {str(exc)[:300]}", "sigs": {}, "rc": None}
-    trig = co.edit_kinds(e3.Project.from_json(case["project"]), case["history"]) if what == "guard" else None
-    sigs = co.signatures(r["inc"], r["scr"], r["diffs"], trig, r["results"][:-1])
+    sigs = co.signatures(r["inc"], r["scr"], r["diffs"], case, r["results"][:-1])
     return {"error": None, "rc": [r["inc"].returncode, r["scr"].returncode],
             "sigs": {k: [[d["kind"], d["key"], d["a"], d["b"]] for d in v] for k, v in sigs.items()}}
 
@@ -324,7 +323,7 @@ def _run_detached(i_seed):
     except (e3.E3Error, OSError) as exc:
         out["error"] = f"{type(exc).__name__}: {str(exc)[:300]}"
         return out
-    sigs = co.signatures(r["inc"], r["scr"], r["diffs"], None, r["results"][:-1])
+    sigs = co.signatures(r["inc"], r["scr"], r["diffs"], case, r["results"][:-1])
     out["sigs"] = {k: [[d["kind"], d["key"], d["a"], d["b"]] for d in v[:6]] for k, v in sigs.items()}
     out["rc"] = [x.returncode for x in r["results"]] + [r["scr"].returncode]
     out["detached_completions"] = sum(
@@ -357,7 +356,7 @@ def _run_subset(i_seed):
     except (e3.E3Error, OSError) as exc:
         out["error"] = f"{type(exc).__name__}: {str(exc)[:300]}"
         return out
-    sigs = co.signatures(r["inc"], r["scr"], r["diffs"], None, r["results"][:-1])
+    sigs = co.signatures(r["inc"], r["scr"], r["diffs"], case, r["results"][:-1])
     out["sigs"] = {k: [[d["kind"], d["key"], d["a"], d["b"]] for d in v[:6]] for k, v in sigs.items()}
     out["rc"] = [x.returncode for x in r["results"]] + [r["scr"].returncode]
     out["executed"] = [len(x.commands) for x in r["results"]]
@@ -384,7 +383,7 @@ def _run_output(i_seed):
     except (e3.E3Error, OSError) as exc:
         out["error"] = f"{type(exc).__name__}: {str(exc)[:300]}"
         return out
-    sigs = co.signatures(r["inc"], r["scr"], r["diffs"], None, r["results"][:-1])
+    sigs = co.signatures(r["inc"], r["scr"], r["diffs"], case, r["results"][:-1])
     out["sigs"] = {k: [[d["kind"], d["key"], d["a"], d["b"]] for d in v[:6]] for k, v in sigs.items()}
     out["rc"] = [x.returncode for x in r["results"]] + [r["scr"].returncode]
     out["executed"] = [len(x.commands) for x in r["results"]]
@@ -442,7 +441,7 @@ def _run_item(item: dict) -> dict:
         except (e3.E3Error, OSError) as exc2:
             out["error"] = f"{type(exc2).__name__}: {str(exc2)[:400]}"
             return out
-    sigs = co.signatures(r["inc"], r["scr"], r["diffs"], None, r["results"][:-1])
+    sigs = co.signatures(r["inc"], r["scr"], r["diffs"], case, r["results"][:-1])
     out["sigs"] = {k: [[d["kind"], d["key"], d["a"], d["b"]] for d in v[:6]] for k, v in sigs.items()}
     out["rc"] = [r["inc"].returncode, r["scr"].returncode]
     out["executed"] = [len(x.commands) for x in r["results"]]
@@ -524,12 +523,8 @@ def oracle(ctx, n_override=None):
         lst.sort()
         size, i, diffs = lst[0]
         case, desc = cdet.gen_detached_case(random.Random(f"c01-detached-{ctx.seed}-{i}"))
-        sig2 = sig
-        if sig not in KNOWN_NAMED:
-            final = co.case_signatures(case, with_triggers=True)
-            sig2 = next((k for k in final if k.split(":after:")[0] == sig), sig)
         reported.add(sig)
-        _report(ctx, sig2, case, diffs, f"detached-family case {i} ({desc['mode']}, {desc['between']}), "
+        _report(ctx, sig, case, diffs, f"detached-family case {i} ({desc['mode']}, {desc['between']}), "
                 f"{len(lst)} case(s) with this signature")
     # (2c) generated histories 'several variables / source inputs of one step change in one phase,
     #      a subset goes back in a later phase' (steps tracking 2-3 variables, declared / amended)
@@ -558,12 +553,8 @@ def oracle(ctx, n_override=None):
         lst.sort()
         size, i, diffs = lst[0]
         case, desc = _subset_case(ctx.seed, i)
-        sig2 = sig
-        if sig not in KNOWN_NAMED:
-            final = co.case_signatures(case, with_triggers=True)
-            sig2 = next((k for k in final if k.split(":after:")[0] == sig), sig)
         reported.add(sig)
-        _report(ctx, sig2, case, diffs, f"subset-revert case {i} ({json.dumps(desc, sort_keys=True)}), "
+        _report(ctx, sig, case, diffs, f"subset-revert case {i} ({json.dumps(desc, sort_keys=True)}), "
                 f"{len(lst)} case(s) with this signature")
     # (2d) generated histories 'products of steps are modified / deleted / rewritten / touched
     #      between two builds' (no other generator edits anything but sources, scripts, variables)
@@ -592,12 +583,8 @@ def oracle(ctx, n_override=None):
         lst.sort()
         size, i, diffs = lst[0]
         case, desc = _output_case(ctx.seed, i)
-        sig2 = sig
-        if sig not in KNOWN_NAMED:
-            final = co.case_signatures(case, with_triggers=True)
-            sig2 = next((k for k in final if k.split(":after:")[0] == sig), sig)
         reported.add(sig)
-        _report(ctx, sig2, case, diffs, f"product-edit case {i} ({json.dumps(desc, sort_keys=True)}), "
+        _report(ctx, sig, case, diffs, f"product-edit case {i} ({json.dumps(desc, sort_keys=True)}), "
                 f"{len(lst)} case(s) with this signature")
     # (3) generated histories
     n = n_override or ctx.scale(240, 4000)
@@ -647,22 +634,18 @@ def oracle(ctx, n_override=None):
         named = sig in KNOWN_NAMED
 
         def keep(c, sig=sig):
-            return sig.split(":after:")[0] in {k.split(":after:")[0] for k in co.case_signatures(c)}
+            # the WHOLE signature (difference kind + cause class) must persist, so the reported
+            # signature is the one the case was found under, whatever the shrinker removes
+            return sig in co.case_signatures(c)
         if named:
             # minimal witnesses of the named findings are in corpus/C01 and fixed_cases()
             small, runs = case, 0
         else:
-            # bounded by the number of runs, not by time: the minimised history (hence the
-            # trigger part of the signature) must not depend on the load of the machine
+            # bounded by the number of runs, not by time: the minimised history must not depend
+            # on the load of the machine
             small, runs = co.shrink(case, keep, budget_s=1e9, max_runs=ctx.scale(80, 300))
-        if not named:
-            # generic signature: name the trigger from the minimised history
-            final = co.case_signatures(small, with_triggers=True)
-            sig2 = next((k for k in final if k.split(":after:")[0] == sig), sig)
-        else:
-            sig2 = sig
         reported.add(sig)
-        _report(ctx, sig2, small, diffs, f"generated case seed={it['seed']} flavour={it['flavour']} "
+        _report(ctx, sig, small, diffs, f"generated case seed={it['seed']} flavour={it['flavour']} "
                 f"build={it['build']}, {len(lst)} case(s) with this signature", runs)
 
 
@@ -674,7 +657,7 @@ def replay(ctx, obj):
     w = (obj.get("failure") or {}).get("witness") or {}
     if "case" in w:
         r = co.run_case(w["case"])
-        sigs = co.signatures(r["inc"], r["scr"], r["diffs"], None, r["results"][:-1])
+        sigs = co.signatures(r["inc"], r["scr"], r["diffs"], w["case"], r["results"][:-1])
         ctx.case(("replay", json.dumps(w["case"], sort_keys=True)), nontrivial=True)
         for sig, diffs in sigs.items():
             _report(ctx, sig, w["case"], [[d["kind"], d["key"], d["a"], d["b"]] for d in diffs], "replayed witness")
